@@ -30,6 +30,8 @@ type c17Case struct {
 	Switch   bool   `json:"switch"`   // use the plugin twice, PATH pointing at another directory the second time
 	// ExecErrDot: the environment carries GODEBUG=execerrdot=0 (the documented Go switch that lets os/exec run programs found through relative PATH entries)
 	ExecErrDot bool `json:"execErrDot,omitempty"`
+	// Prefix: characters placed in front of the human-readable part (before "age1" / "AGE-PLUGIN-")
+	Prefix string `json:"prefix,omitempty"`
 }
 
 var c17Valid = regexp.MustCompile(`^[A-Za-z0-9+._-]+$`)
@@ -68,7 +70,7 @@ func c17Setup(name string, installValid bool) (*c17Dirs, error) {
 		return nil, err
 	}
 	os.Remove(filepath.Join(d.d1, "age-plugin-placeholder"))
-	for _, n := range []string{name, strings.ToLower(name), strings.ToUpper(name)} {
+	for _, n := range []string{name, strings.ToLower(name), strings.ToUpper(name), "demo"} {
 		if n == "" {
 			continue
 		}
@@ -94,16 +96,16 @@ func c17Check(c c17Case, st *stats.Run) error {
 	var str string
 	var bechOK bool
 	switch c.Position {
-	case "recipient", "cli-r":
-		str = refage.Bech32EncodeGroups("age1"+c.Name, refage.To5([]byte("data")), false)
+	case "recipient", "cli-r", "cli-R":
+		str = refage.Bech32EncodeGroups(strings.ToLower(c.Prefix)+"age1"+c.Name, refage.To5([]byte("data")), false)
 		// a recipient string is lower case: an upper-case letter in the name makes it mixed case
 		bechOK = printable(c.Name) && c.Name == strings.ToLower(c.Name) && c.Name != ""
 		valid = valid && c.Name == strings.ToLower(c.Name)
 	case "identity", "cli-i":
-		str = strings.ToUpper(refage.Bech32EncodeGroups("age-plugin-"+strings.ToLower(c.Name)+"-", refage.To5([]byte("data")), false))
+		str = strings.ToUpper(refage.Bech32EncodeGroups(strings.ToLower(c.Prefix)+"age-plugin-"+strings.ToLower(c.Name)+"-", refage.To5([]byte("data")), false))
 		if c.Name != strings.ToUpper(c.Name) {
 			// lower-case letters in an upper-case identity string: keep them, the string is mixed case
-			str = "AGE-PLUGIN-" + c.Name + "-" + str[len("AGE-PLUGIN-"+c.Name+"-"):]
+			str = strings.ToUpper(c.Prefix) + "AGE-PLUGIN-" + c.Name + "-" + str[len(c.Prefix+"AGE-PLUGIN-"+c.Name+"-"):]
 		}
 		bechOK = printable(c.Name) && c.Name == strings.ToUpper(c.Name)
 		valid = valid && c.Name == strings.ToUpper(c.Name)
@@ -111,11 +113,17 @@ func c17Check(c c17Case, st *stats.Run) error {
 		str = c.Name
 		bechOK = true
 	}
+	if c.Prefix != "" {
+		valid = false
+	}
 	class := "name-valid"
 	if !valid {
 		class = "name-invalid"
 		if strings.ContainsAny(c.Name, "/\\") {
 			class = "name-with-separator"
+		}
+		if c.Prefix != "" {
+			class = "prefix-before-hrp"
 		}
 	}
 	st.Case(bechOK, stats.HashJSON(c), "pos="+c.Position, class, fmt.Sprintf("dotPath=%v", c.DotPath), fmt.Sprintf("relPath=%v", c.RelPath != ""), fmt.Sprintf("path-switch=%v", c.Switch), fmt.Sprintf("godebug-execerrdot0=%v", c.ExecErrDot))
@@ -324,6 +332,9 @@ func c17CheckCLI(c c17Case, d *c17Dirs, str string, valid bool) error {
 	switch c.Position {
 	case "cli-r":
 		code, _, stderr = runCLI(d.cwd, env, nil, ageBin, "-r", str, "-o", "out.age", "in.txt")
+	case "cli-R":
+		os.WriteFile(filepath.Join(d.cwd, "recips.txt"), []byte("# recipients\n"+str+"\n"), 0o644)
+		code, _, stderr = runCLI(d.cwd, env, nil, ageBin, "-R", "recips.txt", "-o", "out.age", "in.txt")
 	case "cli-i":
 		os.WriteFile(filepath.Join(d.cwd, "key.txt"), []byte(str+"\n"), 0o600)
 		code, _, stderr = runCLI(d.cwd, env, nil, ageBin, "-e", "-i", "key.txt", "-o", "out.age", "in.txt")
@@ -481,6 +492,9 @@ func TestC17(t *testing.T) {
 			c.DotPath, c.Switch = false, true
 		}
 		c.ExecErrDot = rapid.IntRange(0, 3).Draw(t, "execerrdot") == 0
+		if c.Position != "bare" && rapid.IntRange(0, 5).Draw(t, "prefixed") == 0 {
+			c.Prefix = rapid.SampledFrom([]string{"/tmp/x/", "x", "/", "../", "a-"}).Draw(t, "prefix")
+		}
 		if c.Position == "identity" {
 			c.Name = strings.ToUpper(c.Name)
 			if rapid.IntRange(0, 9).Draw(t, "keepCase") == 0 {
@@ -490,9 +504,17 @@ func TestC17(t *testing.T) {
 		return c
 	}, check)
 	pbt.Rapid(s, "names-cli", s.N(150, 600), func(t *rapid.T) c17Case {
-		c := c17Case{Name: c17GenName(t), Position: rapid.SampledFrom([]string{"cli-r", "cli-i", "cli-j"}).Draw(t, "position")}
+		c := c17Case{Name: c17GenName(t), Position: rapid.SampledFrom([]string{"cli-r", "cli-i", "cli-j", "cli-R", "cli-R"}).Draw(t, "position")}
 		if c.Position == "cli-i" {
 			c.Name = strings.ToUpper(c.Name)
+		}
+		if c.Position == "cli-R" && rapid.Bool().Draw(t, "inlineHash") {
+			// a complete, valid recipient of the plugin "demo", then '#' and more characters, all inside the human-readable part of one valid string
+			v := refage.Bech32EncodeGroups("age1demo", refage.To5([]byte("x")), false)
+			c.Name = strings.TrimPrefix(v, "age1") + rapid.SampledFrom([]string{"#/pwn", "#", " #x", "#comment", "\t#x"}).Draw(t, "hashTail")
+		}
+		if c.Position != "cli-j" && rapid.IntRange(0, 5).Draw(t, "prefixed") == 0 {
+			c.Prefix = rapid.SampledFrom([]string{"/tmp/x/", "x", "../"}).Draw(t, "prefix")
 		}
 		c.DotPath = rapid.IntRange(0, 3).Draw(t, "dot") == 0
 		c.ExecErrDot = rapid.IntRange(0, 2).Draw(t, "execerrdot") == 0
